@@ -95,9 +95,12 @@ func C16Write(r *eng.Run) {
 
 // C16 dispatches between the sub-workloads of the property.
 func C16(r *eng.Run) {
-	if r.T.Chance(sim.LEntry, 2, 5) {
+	switch r.T.Int(sim.LEntry, 10) {
+	case 0, 1, 2:
 		C16Write(r)
-		return
+	case 3, 4:
+		C16Handshake(r)
+	default:
+		C16Read(r)
 	}
-	C16Read(r)
 }
